@@ -304,7 +304,7 @@ def handleMerge (toks : List String) : String :=
   | _ => "bad-args"
 
 /-- fuseimg <model> <kh> <kw> <ups> <n0> <n1> Sr(o p n) Sc Rr Rc S <src vals> R <ref vals> → corrected source pixels -/
-def handleFuseImg (toks : List String) : String :=
+def handleFuseImg (toks : List String) (srcGrid : Bool := false) : String :=
   match toks with
   | ms :: kh :: kw :: us :: n0 :: n1 :: rest =>
     let ups : Option Resampling := match us with
@@ -321,7 +321,7 @@ def handleFuseImg (toks : List String) : String :=
           if 0 ≤ r ∧ r < nr ∧ 0 ≤ cc ∧ cc < nc then arr.getD (r.toNat * nc.toNat + cc.toNat) none else none
         let p : ImagePair := ⟨sr, sc, rr, rc, mk sa c f, mk ra i l⟩
         " ".intercalate ((List.range c.toNat).flatMap fun (r : Nat) => (List.range f.toNat).map fun (cc : Nat) =>
-          showORat (p.corrected model kh kw n0 n1 ups r cc))
+          showORat (if srcGrid then p.correctedSrcGrid model kh kw n0 n1 ups r cc else p.corrected model kh kw n0 n1 ups r cc))
       | _, _ => "bad-args"
     | _, _, _, _, _, _, _, _ => "bad-args"
   | _ => "bad-args"
@@ -410,6 +410,7 @@ def handle (toks : List String) : String :=
     | _ => "bad-args"
   | "fit" :: rest => handleFit rest
   | "fuseimg" :: rest => handleFuseImg rest
+  | "fuseimgsrc" :: rest => handleFuseImg rest true
   | "merge" :: rest => handleMerge rest
   | ["procres", sa, ra, req] =>
     match sa.toInt?, ra.toInt? with
